@@ -33,6 +33,7 @@ RULE = (
 ASSUMPTIONS = [
     "a file opened for writing is truncated/created first, so the content visible at a crash inside a write is a prefix of a later observed content; a prefix of a key-free byte string is key-free; hence scanning every inter-operation state plus the final state covers torn writes, unless the key is split across two files",
     "file-system mutations made by the wandb service process (a separate process in offline mode) are not intercepted; their effect is observed at this process's next event and in the final scan (after wandb.finish())",
+    "environment answer owned by the harness: psutil.virtual_memory().available is forced to 0 in the 'mem: low' runs, which makes the in-memory framework fall back to .npz chunk files under the current directory (the run's cwd is a scratch directory that is observed and checked for left-over chunks)",
     "litdata is outside the property's quantifier; 1 epoch / 1 training step; CPU; miniature UNet (filters 4, max_stride 8)",
     "seed, lr_scheduler and early_stopping are set (as the builders and the shipped YAMLs always do)",
 ]
@@ -252,7 +253,20 @@ def run_case(case):
         cfg, out, chunks = build_config(case, tmp, slp)
         supplied = OmegaConf.to_container(verify_training_cfg(cfg.copy()), resolve=True)
         os.makedirs(out, exist_ok=True)
-        observer_start([out, chunks, os.path.join(tmp, "wandb")])
+        # environment answer "available memory": with too little RAM the trainer silently falls back from the
+        # in-memory cache to .npz chunk files written under the CURRENT directory (./train_chunks, ./val_chunks)
+        cwd_chunks = os.path.join(tmp, "cwd")
+        os.makedirs(cwd_chunks, exist_ok=True)
+        old_cwd = os.getcwd()
+        os.chdir(cwd_chunks)
+        import types
+
+        import sleap_nn.training.model_trainer as MT
+
+        real_vm = MT.psutil.virtual_memory
+        if case.get("mem") == "low":
+            MT.psutil.virtual_memory = lambda: types.SimpleNamespace(available=0)
+        observer_start([out, chunks, os.path.join(tmp, "wandb"), cwd_chunks])
         trainer = None
         try:
             try:
@@ -286,6 +300,8 @@ def run_case(case):
         finally:
             scan("final")
             observer_stop()
+            MT.psutil.virtual_memory = real_vm
+            os.chdir(old_cwd)
         res["events"] = list(_OBS["events"])
         res["leaks"] = list(_OBS["leaks"])
         res["crash_points"] = _OBS["scans"]
@@ -322,15 +338,19 @@ def run_case(case):
                         errors.append(f"checkpoint {c} carries the API key in its stored config")
                 except Exception as e:
                     errors.append(f"checkpoint {c} cannot be loaded: {type(e).__name__}: {str(e)[:200]}")
-            if case["fw"].endswith("np_chunks"):
+            if case["fw"].endswith("np_chunks") or case.get("mem") == "low":
                 left = []
-                for dp, dn, fn in os.walk(chunks):
-                    left += [os.path.join(dp, f) for f in fn if f.endswith(".npz")]
+                for root in (chunks, cwd_chunks):
+                    for dp, dn, fn in os.walk(root):
+                        left += [os.path.join(dp, f) for f in fn if f.endswith(".npz")]
                 if left:
                     errors.append(f"chunk deletion was requested but {len(left)} .npz chunk files remain")
-                for sub in ("train_chunks", "val_chunks"):
-                    if os.path.isdir(os.path.join(chunks, sub)):
-                        errors.append(f"chunk deletion was requested but directory {sub} remains")
+                for root in (chunks, cwd_chunks):
+                    for sub in ("train_chunks", "val_chunks"):
+                        if os.path.isdir(os.path.join(root, sub)) and (case["fw"].endswith("np_chunks") or root == cwd_chunks):
+                            errors.append(f"chunk deletion was requested but directory {sub} remains")
+                if case.get("mem") == "low" and not any("npz" in e or "chunks" in e for e in _OBS["events"]):
+                    errors.append("HARNESS: the low-memory answer did not make the trainer write chunk files (seam lost?)")
     finally:
         observer_stop()
         shutil.rmtree(tmp, ignore_errors=True)
@@ -345,14 +365,19 @@ def grid(tier):
                 for ck in (True, False):
                     for kind in ("plain", "structured"):
                         cases.append({"model": mt, "fw": fw, "wandb": wb, "ckpt": ck, "kind": kind})
+    # environment answer "insufficient memory" (in-memory framework falls back to chunk files)
+    lowmem = [{"model": MODEL_TYPES[i % 4], "fw": "torch_dataset", "wandb": wb, "ckpt": ck, "kind": kind, "mem": "low"}
+              for i, (wb, ck, kind) in enumerate([(False, True, "plain"), (True, False, "structured"), (False, False, "structured"), (True, True, "plain")])]
+    if tier != "quick":
+        lowmem = [{"model": mt, "fw": "torch_dataset", "wandb": wb, "ckpt": True, "kind": kind, "mem": "low"} for mt in MODEL_TYPES for wb in (False, True) for kind in ("plain", "structured")]
     if tier == "quick":
         # pairwise-complete 16-run sub-grid: all fw x wandb x ckpt x kind combinations, model types alternating
         out = []
         combos = [(fw, wb, ck, kind) for fw in ("torch_dataset", "torch_dataset_np_chunks") for wb in (False, True) for ck in (True, False) for kind in ("plain", "structured")]
         for i, (fw, wb, ck, kind) in enumerate(combos):
             out.append({"model": MODEL_TYPES[(i + i // 4) % 4], "fw": fw, "wandb": wb, "ckpt": ck, "kind": kind})
-        return out
-    return cases
+        return out + lowmem
+    return cases + lowmem
 
 
 def work(part, shard):
